@@ -241,6 +241,15 @@ func normAtom(a string, pol bool) (string, bool) {
 // checkDecision compares the function's decision with the reviewed one, value by value.
 func checkDecision(r *Report, rule, key string, fn *ssa.Function, idx int, want []string) {
 	cur, rev := decisionOf(fn, idx), parseDecision(want)
+	// a guard moved between a function and the qualifiers it calls changes both tables and not what is
+	// decided: when the tables differ as written, they are compared once more with the calls of reviewed
+	// functions replaced by those functions' own decisions (decisionCallees)
+	if len(decisionCallees) > 0 && !sameDecision(cur, rev) {
+		ec, er := expandCalls(cur, 0), expandCalls(rev, 0)
+		if sameDecision(ec, er) {
+			cur, rev = ec, er
+		}
+	}
 	atomSet := map[string]bool{}
 	vals := map[string]bool{}
 	for _, cs := range [][]conj{cur, rev} {
@@ -390,6 +399,168 @@ func condsDNF(cs []Cond, depth int) [][]Cond {
 		if len(out) > 64 {
 			return [][]Cond{cs}
 		}
+	}
+	return out
+}
+
+
+// decisionCallees: reviewed decision functions by the prefix their call atoms start with
+// ("(*filter.FilterNode).isHeadersQualified"); set by the property that owns the tables.
+var decisionCallees = map[string]*ssa.Function{}
+
+var calleeDecisionCache = map[*ssa.Function][]conj{}
+
+// sameDecision: the two lists of alternatives denote the same function of their atoms.
+func sameDecision(cur, rev []conj) bool {
+	atomSet := map[string]bool{}
+	vals := map[string]bool{}
+	for _, cs := range [][]conj{cur, rev} {
+		for _, c := range cs {
+			vals[c.val] = true
+			for a := range c.lits {
+				atomSet[a] = true
+			}
+		}
+	}
+	var atoms []string
+	for a := range atomSet {
+		atoms = append(atoms, a)
+	}
+	sort.Strings(atoms)
+	if len(atoms) > 18 {
+		return false
+	}
+	holds := func(cs []conj, v string, m int) bool {
+		for _, c := range cs {
+			if c.val != v {
+				continue
+			}
+			ok := true
+			for i, a := range atoms {
+				if pol, has := c.lits[a]; has && pol != (m&(1<<i) != 0) {
+					ok = false
+					break
+				}
+			}
+			if ok {
+				return true
+			}
+		}
+		return false
+	}
+	for v := range vals {
+		for m := 0; m < 1<<len(atoms); m++ {
+			if holds(cur, v, m) != holds(rev, v, m) {
+				return false
+			}
+		}
+	}
+	return true
+}
+
+// splitArgs splits "a, f(b, c), d" at the top-level commas.
+func splitArgs(s string) []string {
+	var out []string
+	depth, start := 0, 0
+	for i := 0; i < len(s); i++ {
+		switch s[i] {
+		case '(', '[':
+			depth++
+		case ')', ']':
+			depth--
+		case ',':
+			if depth == 0 {
+				out = append(out, strings.TrimSpace(s[start:i]))
+				start = i + 1
+			}
+		}
+	}
+	return append(out, strings.TrimSpace(s[start:]))
+}
+
+// expandCalls replaces every literal that is a call of a reviewed decision function by that
+// function's own alternatives (its parameters replaced by the call's arguments).
+func expandCalls(cs []conj, depth int) []conj {
+	if depth > 6 {
+		return cs
+	}
+	var out []conj
+	changed := false
+	for _, c := range cs {
+		var atom, prefix string
+		var keys []string
+		for a := range c.lits {
+			keys = append(keys, a)
+		}
+		sort.Strings(keys)
+		for _, a := range keys {
+			for p := range decisionCallees {
+				if strings.HasPrefix(a, p+"(") && strings.HasSuffix(a, ")") && (atom == "" || a < atom) {
+					atom, prefix = a, p
+				}
+			}
+		}
+		if atom == "" {
+			out = append(out, c)
+			continue
+		}
+		changed = true
+		g := decisionCallees[prefix]
+		rows, ok := calleeDecisionCache[g]
+		if !ok {
+			rows = decisionOf(g, 0)
+			calleeDecisionCache[g] = rows
+		}
+		args := splitArgs(atom[len(prefix)+1 : len(atom)-1])
+		subst := func(a string) string {
+			for i, p := range g.Params {
+				if i >= len(args) {
+					break
+				}
+				name := "param:" + canonParam(p)
+				var b strings.Builder
+				for j := 0; j < len(a); {
+					if strings.HasPrefix(a[j:], name) {
+						end := j + len(name)
+						if end == len(a) || !(a[end] == '_' || a[end] >= '0' && a[end] <= '9' || a[end] >= 'a' && a[end] <= 'z' || a[end] >= 'A' && a[end] <= 'Z') {
+							b.WriteString("\x00" + args[i] + "\x00")
+							j = end
+							continue
+						}
+					}
+					b.WriteByte(a[j])
+					j++
+				}
+				a = b.String()
+			}
+			return strings.ReplaceAll(a, "\x00", "")
+		}
+		want := fmt.Sprint(c.lits[atom])
+		for _, row := range rows {
+			if row.val != want {
+				continue
+			}
+			n := conj{val: c.val, lits: map[string]bool{}}
+			for a, pol := range c.lits {
+				if a != atom {
+					n.lits[a] = pol
+				}
+			}
+			dead := false
+			for a, pol := range row.lits {
+				sa := subst(a)
+				if old, has := n.lits[sa]; has && old != pol {
+					dead = true
+				}
+				n.lits[sa] = pol
+			}
+			if !dead {
+				out = append(out, n)
+			}
+		}
+	}
+	if changed {
+		return expandCalls(out, depth+1)
 	}
 	return out
 }
